@@ -20,7 +20,7 @@ def replay_kani(r, prepared, work, log):
     if prepared:
         root, gd = prepared
         h2 = kanirun.Harness(h.name, h.group, h.props, timeout=h.timeout * 2 + 120, memsafe=h.memsafe,
-                             unwind=h.unwind, extra=h.extra)
+                             unwind=h.unwind, extra=h.extra, fs_array=h.fs_array)
         r2 = kanirun.run_harness(root, h2, gd, extra_flags=["-Z", "concrete-playback", "--concrete-playback=print"])
         m = re.search(r"```\n(.*?)```", r2.log, re.S)
         if m:
